@@ -1,40 +1,49 @@
 /-
   C13 — homomorphic polynomial evaluation returns p(x) at the advertised depth and scale.
 
-  What is proved about `Lattigo.Model.PolyEval`.
-  Layer (A), the algebra (any commutative ring; the driver runs it on Int and the harness ties it to the
-  decrypted output of the real evaluator):
-    power basis (`powVal`)      = x^n            resp. T_n(x)       for every n
-    `factorize`                 : p = q·X^n + r  resp. q·T_n + r    (deg r < n)
-    Paterson–Stockmeyer `psRec` = p(x)           both bases, every coefficient list
-    depth arithmetic            : coded consumption = ⌈log2(deg+1)⌉; the entry guard is one short on 2^k
-    unmapped slots              : coefficient vectors vanish outside every mapping
-  Layer (B), the machine `run` (operands = level, scale mod t, ciphertext degree, slot values; the trace of
-  scheme-evaluator calls is tied line by line to the real code):
-    `depth_spec`                : output level = input − ⌈log2(deg+1)⌉ for every degree 1 ≤ d < 64, EVERY
-                                  coefficient list, mapping, Lazy, input level, scale, plaintext modulus
-                                  (`run_levels_simulated` + kernel evaluation of the level-only run);
-                                  `_bfv` (no level consumed), `_chebyshev` (d < 32), `_of_check` (any d
-                                  on which the closed check succeeds)
-    `target_scale`              : output scale = requested (exact scales mod prime t, units), d < 64;
-                                  `target_scale_of_level` and `sim_backpropagation_spec` for EVERY degree
-    `too_few_levels`, `constant_polynomial_spec`, `mulThenAdd_keeps_degree_two_part`
-  Witnesses (kernel evaluation of the machine, tied to the real code by the harness): `even_flag_evaluates`,
-  `flags_cleared_general` (user-set IsOdd/IsEven), `bfv_no_level_consumed`,
-  `bfv_below_depth_evaluates`, `partial_basis_regenerated`, `prefilled_basis` (`EvaluateFromPowerBasis`).
-  What remains a tie/probe only: the ordered op trace itself, ckks scales (128-bit floats; probe 2^-30),
-  composite circuits (sign/step/inverse/mod1); open for all degrees: `∀ d, depthOK d lazy` (the level-only
-  run of degree d from ⌈log2(d+1)⌉ levels ends at level 0) — checked here for d < 64.
+  STATUS (what each clause of the property text rests on).
 
-  The model follows the code with the fixes C13-1 (bgv `MulThenAdd` keeps the accumulator's degree and
-  takes the smaller level; the ckks counterpart is C06-6/C06-7), C13-2 (constant polynomials) and
-  C13-3 (guard of `bignum.Polynomial.Factorize`), C13-4 (constants under cleared flags), C13-5 (even flag, one
-  coefficient), C13-6 (no level guard in the scale-invariant mode), C13-7 (powers of two generated one by one) applied: `mulThenAdd_keeps_degree_two_part`,
-  `constant_polynomial_spec`, `factorize_guard_spec`.
+  Proved for ALL inputs, layer (A) — the algebra over any commutative ring (driver: Int; `C13Ring`: the
+  RNS polynomial ring `WFPoly` the schemes compute in):
+    `powerbasis_spec_*`, `factorize_spec_*`, `ps_spec_*`   pb[n] = x^n / T_n(x); p = q·B_n + r; Paterson–
+                                  Stockmeyer = p(x), both bases, every coefficient list, every split
+    `chebEval_spec`, `change_of_basis_spec`, `change_of_basis_per_polynomial`   bignum `Evaluate` and the
+                                  per-polynomial Chebyshev change of basis of a vector
+    `goldschmidt_spec`, `interval_normalization_invariant`, `interval_normalization_steps`   the inverse
+                                  circuit on values: x·a_k = 1 − (1−x)^(2^(k+1)); y = x·fac; step count
+  Proved for ALL inputs, layer (B) — the machine `run` (operands = level, scale mod t, ciphertext degree,
+  slot values; its op trace is tied line by line to the real evaluator):
+    `too_few_levels(_clog)`       fewer than ⌈log2(d+1)⌉ levels ⇒ `err`, nothing executed (standard mode)
+    `constant_polynomial_spec`    degree 0: no level, target scale, one op
+    `run_levels_simulated`        levels/degrees/control flow do not depend on t, scales, coefficient
+                                  values, slot values, mapping, and shift with the input level
+    `unmapped_slot_evaluates_to_zero`   a slot outside every mapping list is 0 in the result (every degree,
+                                  basis, mode, flags)
+    `target_scale_bfv`, `sim_backpropagation_spec_bfv`   scale-invariant mode: out.scale = requested and
+                                  out.level ≤ input, EVERY degree
+    `sim_backpropagation_spec`, `target_scale_of_level`   standard mode, EVERY degree: the simulator's scales
+                                  compose to the target; out.scale = requested GIVEN the documented level
+  Proved with the degree bounded by a kernel evaluation (`depthOK_below_64` etc.: a closed check of the
+  level-only run, NOT a general theorem — `depth_spec_of_check` is the general reduction to it):
+    `depth_spec`, `depth_spec_level_only`, `depth_spec_bfv` (1 ≤ d < 64), `depth_spec_chebyshev` (d < 32),
+    `target_scale` (d < 64).   OPEN: `∀ d ≥ 1, ∀ lazy, depthOK d lazy = true`.
+  `depth_spec_partial` is only the arithmetic identity (coded depth + 1 = ⌈log2(d+1)⌉); kept under that name.
+  Witnesses by kernel evaluation of the machine: `even_flag_evaluates`, `flags_cleared_general`,
+  `bfv_no_level_consumed`, `bfv_below_depth_evaluates`, `partial_basis_regenerated`, `prefilled_basis`.
+  Tied only (no general theorem): the ordered op trace of `eval` (all modes), `depth`, `cob`, `normiters`,
+  `chebeval` agree with the real code on the explored inputs; `split`/`optsplit` run regenerated code (`C13Gen`).
+  Probed only: decrypted values (bgv exact, ckks 2^-10), ckks scales (2^-30), composite circuits (inverse,
+  sign/step, max/min, mod1) on their stated domains, two-levels-per-rescaling evaluation.
+  Not covered: an error bound for the minimax sign composition and for mod1 (approximation theory; only
+  probed); ckks noise ("within the noise-implied precision" is a probe threshold); the trace ↔ value link of
+  layer (B) to layer (A) is through the ties (`ps=` equals the decrypted values), not a theorem.
+
+  The model follows the code with the fixes C13-1 … C13-9 applied (`fixes/C13-*.diff`).
 -/
 import Lattigo.Proofs.PolyEvalDepth
 import Lattigo.Proofs.PolyEvalScale
 import Lattigo.Proofs.PolyComposite
+import Lattigo.Proofs.PolyEvalSlots
 import Lattigo.Props.C13Gen
 import Lattigo.Props.C13Ring
 import Mathlib.Tactic.NormNum.Prime
@@ -252,6 +261,31 @@ theorem target_scale (e : Env) [Fact e.t.Prime] (h64 : e.t < 2 ^ 64) (hc : e.che
   · rw [hrun] at h1
     simp at h1
 
+/-- **sim_backpropagation_spec_bfv** (every degree, every split): in the scale-invariant mode the simulated
+    evaluation of ANY sub-polynomial towards (level `L`, scale `out`) comes back at level `L` with scale `out` -/
+theorem sim_backpropagation_spec_bfv (e : Env) [Fact e.t.Prime] (h64 : e.t < 2 ^ 64) (hinv : e.inv = true)
+    (L : Int) (hnq : UnitS e (negQ e L)) (pb : List (Nat × SimOpd)) (hpb : SimInvB e L pb) (fuel s : Nat)
+    (p : SubPoly) (out : Nat) (subs : List SubPoly) (res : SimOpd) (hout : out < e.t)
+    (h : recursePS e pb fuel s L p out = some (subs, res)) : res.level = L ∧ res.scale = out :=
+  recursePS_scale_bfv e h64 hinv L hnq pb hpb fuel s p out subs res hout h
+
+/-- **target_scale_bfv**: scale-invariant (BFV) mode, exact scales modulo the prime `t`, EVERY degree
+    `d ≥ 1`, every polynomial (vector), mapping, `Lazy`, input level `L` and input scale (a unit, like
+    `-Q_L mod t`), reduced target scale: whenever the evaluation succeeds, `out.scale = requested` and no
+    level was gained (`out.level ≤ L`; `depth_spec_bfv`: `= L` for `d < 64`). -/
+theorem target_scale_bfv (e : Env) [Fact e.t.Prime] (h64 : e.t < 2 ^ 64) (hinv : e.inv = true)
+    (d : Nat) (hd1 : 1 ≤ d) (polys : List (List Int)) (hpl : (polys.headD []).length = d + 1)
+    (mapping : Option (List (List Nat))) (lazy : Bool) (L : Nat) (hnq : UnitS e (negQ e (L : Int)))
+    (is : Nat) (his : UnitS e is) (ts : Nat) (hts : ts < e.t) (x : List Int) (tr : List String) (o : Opd)
+    (hrun : run e polys mapping lazy L is ts x = (tr, "ok", some o)) : o.scale = ts ∧ o.level ≤ (L : Int) :=
+  Lattigo.Model.PolyEval.target_scale_bfv e h64 hinv d hd1 polys hpl mapping lazy L hnq is his ts hts x tr o hrun
+
+/-- non-vacuity: for the harness's chain `-Q_2 mod t` is a unit (and the run of `bfv_no_level_consumed`
+    is an instance: scale 9 requested, 9 returned) -/
+example : negQ { t := 65537, q := [705, 16321, 16577], cheb := false, slots := 2, inv := true } 2 = 46481 ∧
+    (46481 : ZMod 65537) ≠ 0 := by
+  refine ⟨by decide +kernel, by decide⟩
+
 /-- non-vacuity: `t = 65537` is prime, `q_l mod t` of the harness's chain and the scale 9 are units -/
 example : Nat.Prime 65537 ∧ (705 : ZMod 65537) ≠ 0 ∧ (16321 : ZMod 65537) ≠ 0 ∧ (9 : ZMod 65537) ≠ 0 := by
   refine ⟨by norm_num, by decide, by decide, by decide⟩
@@ -328,6 +362,20 @@ theorem unmapped_slots_zero (env : Env) (m : List (List Nat)) (coeffs : List (Li
     (hj : j < env.slots) (hun : ∀ l ∈ m, j ∉ l) :
     (coeffVec env (some m) coeffs k).getD j 0 = 0 :=
   coeffVec_unmapped env m coeffs k j hj hun
+
+/-- **unmapped_slot_evaluates_to_zero** (machine level; every degree, basis, mode, flags, level, scale,
+    coefficient list): evaluating a vector of polynomials under the mapping `m`, the result is 0 in every
+    slot `j` that no list of `m` contains — whatever the input and the powers hold in that slot -/
+theorem unmapped_slot_evaluates_to_zero (env : Env) (j : Nat) (m : List (List Nat)) (hun : ∀ l ∈ m, j ∉ l)
+    (polys : List (List Int)) (lazy : Bool) (L inScale tScale : Nat) (x : List Int)
+    (tr : List String) (o : Opd) (hrun : run env polys (some m) lazy L inScale tScale x = (tr, "ok", some o)) :
+    o.val.getD j 0 = 0 :=
+  run_unmapped_zero env j m hun polys lazy L inScale tScale x tr o hrun
+
+/-- non-vacuity (kernel evaluation): two polynomials on slots {0} and {2}; slots 1 and 3 are 0, whatever `x` -/
+example : (run { t := 65537, q := [705, 16321], cheb := false, slots := 4 } [[5, 7], [1, 2]] (some [[0], [2]]) false 1 1 1
+    [2, 3, 4, 5]).2.2.map (·.val)
+    = some [19, 0, 9, 0] := by decide +kernel
 
 /-! ## user-set flags, the caller's basis, the scale-invariant mode (witnesses on the machine) -/
 
@@ -421,6 +469,23 @@ theorem interval_normalization_steps_values :
     ¬ Covers 3 1 2 ∧ ¬ Covers 4 1 3 ∧ ¬ Covers 7 1 5 ∧ ¬ Covers 8 1 6 := by
   decide
 
+/-- **goldschmidt_spec** (the arithmetic of `inverse.GoldschmidtDivisionNew`, any commutative ring, every
+    `x`, every number of steps): `x·a_k = 1 − (1−x)^(2^(k+1))` — `a_k` is `1/x` with relative error
+    `(1−x)^(2^(k+1))`: the precision doubles per iteration on `(0, 2)` -/
+theorem goldschmidt_spec {R : Type} [CommRing R] (x : R) (k : Nat) :
+    x * (goldschmidt (ringOps R) x k).1 = 1 - (1 - x) ^ (2 ^ (k + 1)) ∧
+    (goldschmidt (ringOps R) x k).2 = (1 - x) ^ (2 ^ k) :=
+  Lattigo.Model.PolyEval.goldschmidt_spec x k
+
+example : (goldschmidt intOps 3 2).1 = -85 ∧ (3 : Int) * (-85) = 1 - (1 - 3) ^ (2 ^ 3) := by decide
+
+/-- **interval_normalization_invariant**: through any compression steps the normalised value is `x` times
+    the accumulated factor (the factor the circuit multiplies the inverse of the normalised value with) -/
+theorem interval_normalization_invariant {R : Type} [CommRing R] (x : R) (cs : List R) :
+    let r := cs.foldl (fun s c => normStep (ringOps R) c s) (x, 1)
+    r.1 = x * r.2 :=
+  normStep_invariant x cs
+
 /-- **change_of_basis_spec**: the change of basis of `[a, b]` maps `a ↦ -1`, `b ↦ 1` -/
 theorem change_of_basis_spec (a b : Int) (hab : a < b) (h16 : (b - a) ∣ 16) (h8 : (b - a) ∣ 8 * (-a - b)) :
     (changeOfBasis8 (a, b)).1 * a + (changeOfBasis8 (a, b)).2 = -8 ∧
@@ -474,6 +539,11 @@ example : chebEval 2 4 5 [1, 2, 3] = 1 + 2 * 2 + 3 * (2 * 2 * 2 - 1) := by decid
 #print axioms mulThenAdd_keeps_degree_two_part
 #print axioms factorize_guard_spec
 #print axioms unmapped_slots_zero
+#print axioms unmapped_slot_evaluates_to_zero
+#print axioms sim_backpropagation_spec_bfv
+#print axioms target_scale_bfv
+#print axioms goldschmidt_spec
+#print axioms interval_normalization_invariant
 #print axioms factorizeF_default
 #print axioms even_flag_evaluates
 #print axioms flags_cleared_general
